@@ -85,8 +85,12 @@ class SymInt(int):
     def __le__(s, o): return SymBool(s.e <= _e(o))
     def __gt__(s, o): return SymBool(s.e > _e(o))
     def __ge__(s, o): return SymBool(s.e >= _e(o))
-    def __eq__(s, o): return SymBool(s.e == _e(o))
-    def __ne__(s, o): return SymBool(s.e != _e(o))
+    def __eq__(s, o):
+        if not isinstance(o, int): return False      # e.g. dtype == "real"
+        return SymBool(s.e == _e(o))
+    def __ne__(s, o):
+        if not isinstance(o, int): return True
+        return SymBool(s.e != _e(o))
     def __hash__(s): raise TypeError("symbolic int hashed: stub the container")
     def __index__(s): raise TypeError("symbolic int realised")
     def __repr__(s): return f"SymInt({s.e})"
